@@ -215,6 +215,10 @@ def obligations(prop="C12"):
             k = 0
             for n in ast.walk(fn):
                 iters = []
+                if isinstance(n, ast.Starred) and isinstance(n.ctx, ast.Load):
+                    iters.append((n.value, [ast.Expr(value=ast.Constant(value="order-sensitive: unpacked into a sequence"))], "unpacking"))
+                if isinstance(n, ast.Call) and isinstance(n.func, ast.Attribute) and n.func.attr == "join" and len(n.args) == 1:
+                    iters.append((n.args[0], [ast.Expr(value=ast.Constant(value="order-sensitive: joined into a string"))], "join"))
                 if isinstance(n, ast.For):
                     iters.append((n.iter, n.body, "for"))
                 elif isinstance(n, (ast.ListComp, ast.GeneratorExp, ast.DictComp)):
